@@ -301,6 +301,10 @@ func (ex *Exec) assert(label string, cond *smt.Term) {
 		}
 		ex.assume(cond)
 	default:
+		if !cached && os.Getenv("GSX_DEBUG") != "" {
+			sc, _ := smt.Script(as, false)
+			os.WriteFile(fmt.Sprintf("/tmp/gsx-inconcl-%s-%d.smt2", strings.ReplaceAll(label, " ", "_"), len(ex.taken)), []byte(sc), 0o644)
+		}
 		if !cached {
 			ex.inconclusive = append(ex.inconclusive, fmt.Sprintf("%s @%s: %s", label, ex.curPos, note))
 		}
